@@ -31,6 +31,13 @@ type Plan struct {
 	Race bool `json:"race,omitempty"`
 	// SlowWrites: the server's ResponseWriter yields before consuming each Write.
 	SlowWrites bool `json:"slow_writes,omitempty"`
+	// SharedMsgs: calls of the same RPC whose plan payloads are equal share one message
+	// instance: handlers return one cached response pointer, callers pass one request
+	// pointer (messages are only read by the generated code, so sharing them is legal).
+	SharedMsgs bool `json:"shared_msgs,omitempty"`
+	// ServerDeadlineMs: the Go server sits behind a deadline middleware (context.WithTimeout
+	// on the request context), as production servers commonly do.
+	ServerDeadlineMs int `json:"server_deadline_ms,omitempty"`
 
 	// Mock seam (C20): results of the generated mock's rand.Intn calls; crypto/rand failure.
 	MockInts       []int `json:"mock_ints,omitempty"`
@@ -48,6 +55,26 @@ type HookPlan struct {
 	// StatusOnlyFor: when set, the hook calls WriteHeader(Status) only for errors of these
 	// sources (op note source=...), e.g. a hook that answers 404 for NotFoundError only.
 	StatusOnlyFor []string `json:"status_only_for,omitempty"`
+	// Services: when set, only these services are registered with the hook; the others
+	// are registered without an error handler (two registrations with different options
+	// in one process).
+	Services []string `json:"services,omitempty"`
+}
+
+// AppliesTo reports whether the hook is installed on service svc.
+func (h *HookPlan) AppliesTo(svc string) bool {
+	if h == nil || !h.Present {
+		return false
+	}
+	if len(h.Services) == 0 {
+		return true
+	}
+	for _, s := range h.Services {
+		if s == svc {
+			return true
+		}
+	}
+	return false
 }
 
 type AppBehaviour struct {
